@@ -178,6 +178,41 @@ func (r *run) monitor(events []string, st *scheduler.VerifState, dump string) {
 			}
 		}
 	}
+	// C06/C07: a worker that vanished while executing: its task must have failed with
+	// UNAVAILABLE in this very segment (not silently moved elsewhere), and the analyzer is
+	// told "failed" only when a worker reported a result in this segment.
+	nowWorkers := map[string]bool{}
+	for _, item := range strings.Split(dump, "|") {
+		if f := strings.Fields(item); len(f) >= 2 && f[0] == "w" {
+			nowWorkers[f[1]] = true
+		}
+	}
+	nowTask := map[string]map[string]string{}
+	for _, kv := range taskLine {
+		for _, o := range strings.Split(kv["ops"], ",") {
+			nowTask[o] = kv
+		}
+	}
+	for _, item := range strings.Split(r.last, "|") {
+		f := strings.Fields(item)
+		if len(f) < 3 || f[0] != "w" || nowWorkers[f[1]] {
+			continue
+		}
+		t := strings.TrimPrefix(f[2], "task=")
+		if t == "-" {
+			continue
+		}
+		if tl := nowTask[t]; tl != nil && !(tl["st"] == "4" && tl["code"] == "14") {
+			r.failf("violation", timeoutProp(), "C06.worker_timeout", "worker %s disappeared while executing the task of operation %s, but the task is now in stage %s (code %s) instead of having failed with UNAVAILABLE", f[1], t, tl["st"], tl["code"])
+		}
+	}
+	if !strings.Contains(r.primary, " c:") {
+		for _, ev := range events {
+			if strings.HasPrefix(ev, "an learner") && strings.Contains(ev, " failed ") {
+				r.failf("violation", "C07", "C07.learner_linear (terminal call matches what happened)", "the learner was told the action failed (%s) in a segment in which no worker reported a result (%s)", ev, r.primary)
+			}
+		}
+	}
 	// C03: same final result for all operations of one task; at most one live cacheable task per digest
 	live := map[string]int{}
 	for _, t := range st.Tasks {
